@@ -73,7 +73,13 @@ class ArgSpec:
             case int():
                 return str(arg)
             case float():
-                return str(arg)
+                text = str(arg)
+                if "e" in text and "." not in text:
+                    # The pipeline lexer only recognises an exponent after a `.`
+                    mantissa, exponent = text.split("e")
+                    text = f"{mantissa}.0e{exponent}"
+                return text
+
 
     @staticmethod
     def _spec_parameter_list_type_str(name: str, arg: ParameterListType) -> str:
